@@ -46,6 +46,7 @@ type Exec struct {
 	EvalSamples  []string
 	orphans      []*State
 	inInit       bool
+	globalIdx    map[*ssa.Global]int
 }
 
 func NewExec(st *smt.Store, solver *smt.Solver, prog *ssa.Program, pkg *ssa.Package) *Exec {
@@ -496,14 +497,15 @@ func (ex *Exec) globalPtr(s *State, g *ssa.Global) *Ptr {
 	return &Ptr{Obj: key}
 }
 
-var globalIdx = map[*ssa.Global]int{}
-
 func (ex *Exec) globalIndex(g *ssa.Global) int {
-	if i, ok := globalIdx[g]; ok {
+	if ex.globalIdx == nil {
+		ex.globalIdx = map[*ssa.Global]int{}
+	}
+	if i, ok := ex.globalIdx[g]; ok {
 		return i
 	}
-	globalIdx[g] = len(globalIdx) + 1
-	return globalIdx[g]
+	ex.globalIdx[g] = len(ex.globalIdx) + 1
+	return ex.globalIdx[g]
 }
 
 func (ex *Exec) initGlobal(s *State, g *ssa.Global) Value {
